@@ -11,7 +11,10 @@ function makeAdapter (table, opts) {
     }
 
     rewrite (code, file) {
-      const job = { cfg: this.config === undefined ? null : this.config, prng_seed: this.prngSeed, file, code }
+      // `logger` / `logLevel` are the JS wrapper's own options: they are not part of what the binding deserialises
+      let cfg = this.config === undefined ? null : this.config
+      if (cfg && typeof cfg === 'object' && (cfg.logger !== undefined || cfg.logLevel !== undefined)) { cfg = Object.assign({}, cfg); delete cfg.logger; delete cfg.logLevel }
+      const job = { cfg, prng_seed: this.prngSeed, file, code }
       if (opts.logLevel) job.log_level = opts.logLevel
       if (opts.fsFor) { const f = opts.fsFor(file, code); if (f) job.fs = f }
       const r = table.get(job)
